@@ -529,7 +529,7 @@ func TestVerifC10(t *testing.T) {
 		switch parts[0] {
 		case "read":
 			c.Steps = append(c.Steps, advStep{At: fl.at, Kind: "readerr", Err: parts[1]})
-			expect = map[string]string{"syscall": "redial", "perm": "error", "other": "error"}[parts[1]]
+			expect = map[string]string{"syscall": "redial", "perm": "error", "other": "error", "eintr": "redial", "emfile": "redial", "op-netdown": "redial"}[parts[1]]
 		case "timeouts", "timeoutsinv":
 			fmt.Sscan(parts[1], &nTimeouts)
 			for j := 0; j < nTimeouts; j++ {
@@ -724,12 +724,12 @@ func TestVerifC10(t *testing.T) {
 		}
 	}
 
-	kinds := []string{"read:syscall", "read:perm", "read:other", "timeouts:1", "timeouts:2", "timeouts:3", "timeouts:4", "timeouts:5", "timeouts:6",
+	kinds := []string{"read:syscall", "read:perm", "read:other", "read:eintr", "read:emfile", "read:op-netdown", "timeouts:1", "timeouts:2", "timeouts:3", "timeouts:4", "timeouts:5", "timeouts:6",
 		"timeoutsinv:1", "timeoutsinv:3", "timeoutsinv:4", "timeoutsinv:5",
 		"linkondial", "write:nobufs", "write:perm", "write:other", "writepending:nobufs", "writepending:other", "writeall:nobufs", "writeall:perm", "link", "watchclose"}
 	// the same read-side faults against a Monitor task
 	mreps := r.Pick(4, 150)
-	for _, k := range []string{"read:syscall", "read:perm", "read:other", "timeouts:1", "timeouts:4", "timeouts:5", "timeouts:6", "link", "linkondial", "watchclose"} {
+	for _, k := range []string{"read:syscall", "read:perm", "read:other", "read:eintr", "read:emfile", "timeouts:1", "timeouts:4", "timeouts:5", "timeouts:6", "link", "linkondial", "watchclose"} {
 		for rep := 0; rep < mreps; rep++ {
 			at := 4*time.Second + time.Duration(rr.Int63n(int64(8*time.Second)))
 			run(fmt.Sprintf("monfault/%s/%d", k, rep), fault{k, at}, false, 0, rr.Int63n(1e9))
